@@ -127,6 +127,10 @@ def spell_int(rng, v):
         opts.append("int")
     if abs(v) < 2**53:
         opts.append("float")
+    elif rng.random() < 0.08:
+        # unspecified spellings (bare integer >= 2^64, integral float >= 2^53): the tool may refuse them, but if it
+        # accepts them the value must be the exact integer written
+        return rng.choice(["%d" % v, "%d.0" % v, "%de0" % v])
     k = rng.choice(opts)
     if k == "int":
         return str(v)
